@@ -709,6 +709,12 @@ Corrupted record (VERIF_C05_CORRUPT=<how> changes one field of one event of the 
    od   (digest of a run's output)      -> BAD "behaviour: the run differs from the direct run" -> VIOLATION
    step (Archive step renamed ao -> ao) -> BAD "illegal step" (not a step of Units.tla)       -> VIOLATION
 
-Unchanged tree: holds with KNOWN-FINDING lines (seeds 20261004, 12345); with hooks/fix-C05-fm-gdecl-rtype.diff and
+Later round (after the two .fm fixes 8d362cd / 2dd3156 were committed): programs with exceptions are split too (throwers and the
+exception declarations in the library unit, catchers in the client; render_split(lib_exns=True)), two fixed programs keep the
+cross-unit inlining findings visible, and the seeded change /tmp/seeded/C03-1 (fint.c restores the tape of the wrong unit on
+catch) is caught: `bin/seedtest /tmp/seeded/C03-1/patch.diff C05` -> exit 1, 5 VIOLATIONs, all on route run (interpreter) of
+splits whose library throws.  Seeds 5, 20261004, 31337 on /repo: exit 0 with the same two KNOWN-FINDING lines.
+
+Earlier: unchanged tree held with KNOWN-FINDING lines (seeds 20261004, 12345); with hooks/fix-C05-fm-gdecl-rtype.diff and
 hooks/fix-C05-fm-wide-sint.diff applied to a worktree it holds without any (seeds 20261004, 777).
 """
